@@ -204,8 +204,9 @@ Definition des_key_schedule (key : list N) : list (list N) :=
 (* ------------------------------------------------------------------ DES and TDEA *)
 Inductive dir := Enc | Dec.
 
-(* the round keys of one DES pass in the order of use: deciphering uses K_16 first *)
-Definition pass_rks (d : dir) (ks : list (list N)) : list (list N) := match d with Enc => ks | Dec => rev ks end.
+(* the round keys of one DES pass in the order of use: deciphering uses K_16 first
+   (polymorphic in the type of a round key, like the key schedule above) *)
+Definition pass_rks {A} (d : dir) (ks : list A) : list A := match d with Enc => ks | Dec => rev ks end.
 
 Definition des_pass (p : dir * list (list N)) (block : list N) : list N := des_core (pass_rks (fst p) (snd p)) block.
 
@@ -214,7 +215,7 @@ Definition des_decrypt (key block : list N) : list N := des_pass (Dec, des_key_s
 
 (* TDEA (FIPS 46-3 / SP 800-67):  encryption O = E_K3 (D_K2 (E_K1 (I))),  decryption O = D_K1 (E_K2 (D_K3 (I))).
    [ks] are the key schedules of the bundle: one (single DES), two (K3 = K1) or three. *)
-Definition tdea_passes (mode : dir) (ks : list (list (list N))) : list (dir * list (list N)) :=
+Definition tdea_passes {A} (mode : dir) (ks : list A) : list (dir * A) :=
   match ks with
   | [k1] => [(mode, k1)]
   | [k1; k2] => match mode with Enc => [(Enc, k1); (Dec, k2); (Enc, k1)] | Dec => [(Dec, k1); (Enc, k2); (Dec, k1)] end
@@ -270,6 +271,25 @@ Definition tdea_state_at (mode : dir) (ks : list (list (list N))) (block : list 
   let q := nth p ps (Enc, []) in
   des_state_at (pass_rks (fst q) (snd q)) x r s.
 
+(* ------------------------------------------------------------------ the key argument of the library *)
+(* 8 / 16 / 24 bytes: the keys K1 | K1 K2 | K1 K2 K3 of the bundle;  128 / 256 / 384 bytes: for each key of the bundle its 16
+   round keys K_1 .. K_16 in this order, 8 six-bit words each (what the key schedule would have produced) *)
+Definition schedules_of_key (key : list N) : option (list (list (list N))) :=
+  let n := length key in
+  if Nat.eqb n 8 || Nat.eqb n 16 || Nat.eqb n 24 then Some (map des_key_schedule (chunks (n / 8) 8 key))
+  else if Nat.eqb n 128 || Nat.eqb n 256 || Nat.eqb n 384 then Some (map (chunks 16 8) (chunks (n / 128) 128 key))
+  else None.
+
+(* the standard's value when the operation [mode] with this key argument is stopped in pass at_des, iteration at_round, after
+   step after_step;  None = there is no such stop point *)
+Definition des_spec (mode : dir) (at_des at_round after_step : nat) (key block : list N) : option (list N) :=
+  match schedules_of_key key with
+  | Some ks =>
+    if Nat.ltb at_des (length (tdea_passes mode ks)) && Nat.leb at_round 15 && Nat.leb after_step 9
+    then Some (tdea_state_at mode ks block at_des at_round after_step) else None
+  | None => None
+  end.
+
 (* ------------------------------------------------------------------ byte strings as numbers (for readable vectors) *)
 (* the n bytes of x, most significant first *)
 Fixpoint bytes_be (n : nat) (x : N) : list N :=
@@ -281,18 +301,18 @@ Fixpoint bytes_be (n : nat) (x : N) : list N :=
 (* ------------------------------------------------------------------ known answers *)
 (* worked example of the DES literature (key 133457799BBCDFF1, plaintext 0123456789ABCDEF) with its intermediate values *)
 Example ka_worked_K1 :
-  nth 0 (des_key_schedule (bytes_be 8 0x133457799BBCDFF1)) [] = [0b000110; 0b110000; 0b001011; 0b101111; 0b111111; 0b000111; 0b000001; 0b110010].
+  nth 0 (des_key_schedule (bytes_be 8 0x133457799BBCDFF1)) [] = [6; 48; 11; 47; 63; 7; 1; 50].
 Proof. vm_compute. reflexivity. Qed.
 Example ka_worked_K16 :
-  nth 15 (des_key_schedule (bytes_be 8 0x133457799BBCDFF1)) [] = [0b110010; 0b110011; 0b110110; 0b001011; 0b000011; 0b100001; 0b011111; 0b110101].
+  nth 15 (des_key_schedule (bytes_be 8 0x133457799BBCDFF1)) [] = [50; 51; 54; 11; 3; 33; 31; 53].
 Proof. vm_compute. reflexivity. Qed.
 Example ka_worked_round1 :
   let rks := des_key_schedule (bytes_be 8 0x133457799BBCDFF1) in
   let st := des_state_at rks (bytes_be 8 0x0123456789ABCDEF) 0 in
   st 0%nat = bytes_be 8 0xCC00CCFFF0AAF0AA /\
-  st 1%nat = [0b011110; 0b100001; 0b010101; 0b010101; 0b011110; 0b100001; 0b010101; 0b010101] /\
-  st 2%nat = [0b011000; 0b010001; 0b011110; 0b111010; 0b100001; 0b100110; 0b010100; 0b100111] /\
-  st 3%nat = [0b0101; 0b1100; 0b1000; 0b0010; 0b1011; 0b0101; 0b1001; 0b0111] /\
+  st 1%nat = [30; 33; 21; 21; 30; 33; 21; 21] /\
+  st 2%nat = [24; 17; 30; 58; 33; 38; 20; 39] /\
+  st 3%nat = [5; 12; 8; 2; 11; 5; 9; 7] /\
   st 4%nat = bytes_be 8 0x234AA9BB00000000 /\
   st 6%nat = bytes_be 8 0xF0AAF0AAEF4A6544.
 Proof. vm_compute. repeat split; reflexivity. Qed.
